@@ -1,8 +1,8 @@
-//verif:v2only resource-level bridge (root-module instantiation pending)
-
 package dyn
 
-// Resource-level bridge: abstract calls and outcomes <-> generated Client / Resource methods.
+// Resource-level bridge: abstract calls and outcomes <-> generated Client / Resource methods. Shared by both module
+// generations (the generated client / resource / mock API and package restli are the same in both); what differs -
+// the fields of ErrorResponse and the name of the collection metadata record - lives in res_v2.go / res_v1.go.
 
 import (
 	"context"
@@ -311,23 +311,6 @@ func pstr(v *string) *string {
 	return &c
 }
 
-func (e *ErrM) ToGo() *common.ErrorResponse {
-	r := &common.ErrorResponse{Status: p32(e.Status), ServiceErrorCode: p32(e.ServiceErrorCode), Code: pstr(e.Code), Message: pstr(e.Message), DocUrl: pstr(e.DocUrl),
-		RequestId: pstr(e.RequestId), ExceptionClass: pstr(e.ExceptionClass), StackTrace: pstr(e.StackTrace), ErrorDetailType: pstr(e.ErrorDetailType)}
-	if e.Details {
-		r.ErrorDetails = &common.ErrorDetails{}
-	}
-	return r
-}
-
-func ErrFromGo(r *common.ErrorResponse) *ErrM {
-	if r == nil {
-		return nil
-	}
-	return &ErrM{Status: p32(r.Status), ServiceErrorCode: p32(r.ServiceErrorCode), Code: pstr(r.Code), Message: pstr(r.Message), DocUrl: pstr(r.DocUrl),
-		RequestId: pstr(r.RequestId), ExceptionClass: pstr(r.ExceptionClass), StackTrace: pstr(r.StackTrace), ErrorDetailType: pstr(r.ErrorDetailType), Details: r.ErrorDetails != nil}
-}
-
 type plainError struct{ msg string }
 
 func (p plainError) Error() string { return p.msg }
@@ -384,7 +367,7 @@ func resultValues(s *schema.Schema, mi *MethodInfo, o *Outcome, ft reflect.Type,
 		}
 		el.Set(sl)
 		if o.Paging != nil {
-			ev.Elem().FieldByName("Paging").Set(reflect.ValueOf(&common.CollectionMetadata{Start: o.Paging.Start, Count: o.Paging.Count, Total: p32(o.Paging.Total)}))
+			ev.Elem().FieldByName("Paging").Set(reflect.ValueOf(pagingToGo(o.Paging)))
 		}
 		if mf := ev.Elem().FieldByName("Metadata"); mf.IsValid() && o.Metadata != nil {
 			mf.Set(conv(Build(s, *mi.M.Metadata, o.Metadata, BuildOpts{}), mf.Type()))
@@ -495,8 +478,7 @@ func outcomeFromClient(s *schema.Schema, mi *MethodInfo, rets []reflect.Value) (
 			o.Elements = append(o.Elements, Extract(s, et, el.Index(i)))
 		}
 		if p := rv.Elem().FieldByName("Paging"); !p.IsNil() {
-			cm := p.Interface().(*common.CollectionMetadata)
-			o.Paging = &PagingM{Start: cm.Start, Count: cm.Count, Total: p32(cm.Total)}
+			o.Paging = pagingFromGo(p.Interface())
 		}
 		if mf := rv.Elem().FieldByName("Metadata"); mf.IsValid() {
 			o.Metadata = Extract(s, *mi.M.Metadata, mf)
